@@ -506,6 +506,7 @@ def main(pid, argv=None):
     ck.coverage["disagreements"] = ndis
     if pid in ("C01", "C02") and (not ck.replay or doc_level):
         unmodelled_composites_roundtrip(ck)
+        unmodelled_composites_roundtrip2(ck)
     if pid == "C05" and (not ck.replay or doc_level):
         somersault_decode(ck)
         unmodelled_composites_decode(ck)
@@ -1146,6 +1147,143 @@ def unmodelled_composites_roundtrip(ck):
             if e2 is not None or d.get("tail") != tail or d.get("m", (None,))[0] != case:
                 ck.violation(f"rq4: decode(encode(m={mv!r}, tail={tail})) = {d!r} {e2!r}", rep_)
                 return
+
+
+_XSI = 'xmlns:xsi="http://www.w3.org/2001/XMLSchema-instance"'
+
+
+def _vp(name, pos, dop):
+    return f'<PARAM xsi:type="VALUE"><SHORT-NAME>{name}</SHORT-NAME><BYTE-POSITION>{pos}</BYTE-POSITION><DOP-REF ID-REF="{dop}"/></PARAM>'
+
+
+def _cc(name, pos, v):
+    return (f'<PARAM xsi:type="CODED-CONST"><SHORT-NAME>{name}</SHORT-NAME><BYTE-POSITION>{pos}</BYTE-POSITION><CODED-VALUE>{v}</CODED-VALUE>'
+            '<DIAG-CODED-TYPE BASE-DATA-TYPE="A_UINT32" xsi:type="STANDARD-LENGTH-TYPE"><BIT-LENGTH>8</BIT-LENGTH></DIAG-CODED-TYPE></PARAM>')
+
+
+def _udop(name, bits):
+    return (f'<DATA-OBJECT-PROP ID="{name}"><SHORT-NAME>{name}</SHORT-NAME><COMPU-METHOD><CATEGORY>IDENTICAL</CATEGORY></COMPU-METHOD>'
+            f'<DIAG-CODED-TYPE BASE-DATA-TYPE="A_UINT32" xsi:type="STANDARD-LENGTH-TYPE"><BIT-LENGTH>{bits}</BIT-LENGTH></DIAG-CODED-TYPE>'
+            '<PHYSICAL-TYPE BASE-DATA-TYPE="A_UINT32"/></DATA-OBJECT-PROP>')
+
+
+DTC_A, DTC_B, DTC_C = 0x112233, 0x445566, 0x778899
+# trouble codes, environment data which depends on the trouble code of the same list item, tables
+UNMODELLED_DOC2 = (
+    f'<?xml version="1.0" encoding="UTF-8"?><ODX MODEL-VERSION="2.2.0" {_XSI}>'
+    '<DIAG-LAYER-CONTAINER ID="DLC"><SHORT-NAME>DLC</SHORT-NAME><BASE-VARIANTS><BASE-VARIANT ID="BV"><SHORT-NAME>BV</SHORT-NAME>'
+    '<DIAG-DATA-DICTIONARY-SPEC>'
+    '<DTC-DOPS><DTC-DOP ID="dtcdop"><SHORT-NAME>dtcdop</SHORT-NAME>'
+    '<DIAG-CODED-TYPE BASE-DATA-TYPE="A_UINT32" xsi:type="STANDARD-LENGTH-TYPE"><BIT-LENGTH>24</BIT-LENGTH></DIAG-CODED-TYPE>'
+    '<PHYSICAL-TYPE BASE-DATA-TYPE="A_UINT32"/><COMPU-METHOD><CATEGORY>IDENTICAL</CATEGORY></COMPU-METHOD><DTCS>'
+    + "".join(f'<DTC ID="dtc.{n}"><SHORT-NAME>dtc_{n}</SHORT-NAME><TROUBLE-CODE>{v}</TROUBLE-CODE><TEXT>trouble {n}</TEXT></DTC>'
+              for n, v in (("a", DTC_A), ("b", DTC_B), ("c", DTC_C))) +
+    '</DTCS></DTC-DOP></DTC-DOPS>'
+    '<ENV-DATA-DESCS><ENV-DATA-DESC ID="edd"><SHORT-NAME>edd</SHORT-NAME><PARAM-SNREF SHORT-NAME="dtc"/>'
+    '<ENV-DATA-REFS><ENV-DATA-REF ID-REF="ed.all"/><ENV-DATA-REF ID-REF="ed.a"/><ENV-DATA-REF ID-REF="ed.b"/></ENV-DATA-REFS>'
+    '</ENV-DATA-DESC></ENV-DATA-DESCS>'
+    f'<DATA-OBJECT-PROPS>{_udop("u8", 8)}{_udop("u16", 16)}</DATA-OBJECT-PROPS>'
+    f'<STRUCTURES><STRUCTURE ID="item"><SHORT-NAME>item</SHORT-NAME><PARAMS>{_vp("dtc", 0, "dtcdop")}{_vp("env", 3, "edd")}</PARAMS></STRUCTURE>'
+    f'<STRUCTURE ID="pair"><SHORT-NAME>pair</SHORT-NAME><PARAMS>{_vp("k", 0, "u8")}{_vp("d", 1, "u16")}</PARAMS></STRUCTURE></STRUCTURES>'
+    '<END-OF-PDU-FIELDS><END-OF-PDU-FIELD ID="items"><SHORT-NAME>items</SHORT-NAME><BASIC-STRUCTURE-REF ID-REF="item"/></END-OF-PDU-FIELD></END-OF-PDU-FIELDS>'
+    f'<ENV-DATAS><ENV-DATA ID="ed.all"><SHORT-NAME>ed_all</SHORT-NAME><PARAMS>{_vp("status", 0, "u8")}</PARAMS><ALL-VALUE/></ENV-DATA>'
+    f'<ENV-DATA ID="ed.a"><SHORT-NAME>ed_a</SHORT-NAME><PARAMS>{_vp("temperature", 0, "u8")}</PARAMS><DTC-VALUES><DTC-VALUE>{DTC_A}</DTC-VALUE></DTC-VALUES></ENV-DATA>'
+    f'<ENV-DATA ID="ed.b"><SHORT-NAME>ed_b</SHORT-NAME><PARAMS>{_vp("speed", 0, "u16")}{_vp("voltage", 2, "u8")}</PARAMS><DTC-VALUES><DTC-VALUE>{DTC_B}</DTC-VALUE></DTC-VALUES></ENV-DATA>'
+    '</ENV-DATAS>'
+    '<TABLES><TABLE ID="tab"><SHORT-NAME>tab</SHORT-NAME><KEY-DOP-REF ID-REF="u8"/>'
+    '<TABLE-ROW ID="tab.r1"><SHORT-NAME>r1</SHORT-NAME><KEY>1</KEY><STRUCTURE-REF ID-REF="pair"/></TABLE-ROW>'
+    '<TABLE-ROW ID="tab.r2"><SHORT-NAME>r2</SHORT-NAME><KEY>7</KEY><DATA-OBJECT-PROP-REF ID-REF="u16"/></TABLE-ROW>'
+    '<TABLE-ROW ID="tab.r3"><SHORT-NAME>r3</SHORT-NAME><KEY>200</KEY><DATA-OBJECT-PROP-REF ID-REF="u8"/></TABLE-ROW>'
+    '</TABLE></TABLES>'
+    '</DIAG-DATA-DICTIONARY-SPEC>'
+    f'<REQUESTS><REQUEST ID="rq_tab"><SHORT-NAME>rq_tab</SHORT-NAME><PARAMS>{_cc("sid", 0, 0x31)}'
+    '<PARAM ID="rq_tab.key" xsi:type="TABLE-KEY"><SHORT-NAME>key</SHORT-NAME><BYTE-POSITION>1</BYTE-POSITION><TABLE-REF ID-REF="tab"/></PARAM>'
+    '<PARAM xsi:type="TABLE-STRUCT"><SHORT-NAME>data</SHORT-NAME><BYTE-POSITION>2</BYTE-POSITION><TABLE-KEY-REF ID-REF="rq_tab.key"/></PARAM>'
+    '</PARAMS></REQUEST>'
+    f'<REQUEST ID="rq_dtc"><SHORT-NAME>rq_dtc</SHORT-NAME><PARAMS>{_cc("sid", 0, 0x19)}{_vp("dtc", 1, "dtcdop")}{_vp("st", 4, "u8")}</PARAMS></REQUEST>'
+    '</REQUESTS>'
+    f'<POS-RESPONSES><POS-RESPONSE ID="pr_list"><SHORT-NAME>pr_list</SHORT-NAME><PARAMS>{_cc("sid", 0, 0x59)}{_vp("dtc_list", 1, "items")}</PARAMS></POS-RESPONSE>'
+    '</POS-RESPONSES>'
+    '</BASE-VARIANT></BASE-VARIANTS></DIAG-LAYER-CONTAINER></ODX>')
+
+
+def _norm_dtc(v):
+    from odxtools.diagnostictroublecode import DiagnosticTroubleCode
+    if isinstance(v, DiagnosticTroubleCode):
+        return v.trouble_code
+    if isinstance(v, dict):
+        return {k: _norm_dtc(x) for k, x in v.items()}
+    if isinstance(v, (list, tuple)):
+        return [_norm_dtc(x) for x in v]
+    return v
+
+
+def unmodelled_composites_roundtrip2(ck):
+    """C01 / C02 (oracle only) for data-object kinds the codec model does not cover: DTC DOPs, environment data
+    descriptions whose content depends on the trouble code of the SAME list item (every list of up to 3 items over 4
+    item kinds, so the nearest preceding DTC parameter is not the first one of the PDU), and tables (key + struct)"""
+    import hier_common as hc
+    try:
+        db = hc.load_docs([UNMODELLED_DOC2])
+    except Exception as e:  # noqa
+        ck.note_broken(f"cannot load the DTC / environment data / table document: {type(e).__name__}: {e}")
+        return
+    raw = db.diag_layers[0].diag_layer_raw
+    resp = raw.positive_responses[0]
+    # item -> (value, wire bytes)
+    kinds = {
+        "a": ({"dtc": DTC_A, "env": {"status": 0x11, "temperature": 0x55}}, bytes.fromhex("112233" "11" "55")),
+        "a2": ({"dtc": DTC_A, "env": {"status": 0x12, "temperature": 0x00}}, bytes.fromhex("112233" "12" "00")),
+        "b": ({"dtc": DTC_B, "env": {"status": 0x21, "speed": 0x1234, "voltage": 0x0C}}, bytes.fromhex("445566" "21" "1234" "0c")),
+        "c": ({"dtc": DTC_C, "env": {"status": 0x31}}, bytes.fromhex("778899" "31")),
+    }
+    import itertools
+    n = 0
+    for ln in (0, 1, 2, 3):
+        for combo in itertools.product(sorted(kinds), repeat=ln):
+            n += 1
+            ck.count(("envdata", combo))
+            lst = [kinds[k][0] for k in combo]
+            want = bytes([0x59]) + b"".join(kinds[k][1] for k in combo)
+            rep_ = {"document": "harness/codec_checks.py UNMODELLED_DOC2", "response": "pr_list", "items": list(combo)}
+            r, e, _ = cc.guarded(lambda: bytes(resp.encode(dtc_list=lst)), timeout=3)
+            if e is not None or r != want:
+                ck.violation(f"pr_list with the items {list(combo)} is encoded as {r.hex() if e is None else repr(e)}, "
+                             f"the ODX layout prescribes {want.hex()}", rep_)
+                return
+            d, e2, _ = cc.guarded(lambda: _norm_dtc(resp.decode(r)), timeout=3)
+            if e2 is not None or d != {"sid": 0x59, "dtc_list": lst}:
+                ck.violation(f"pr_list: decode(encode(items {list(combo)})) = {d!r} {e2!r} (PDU {r.hex()})", rep_)
+                return
+    rq = [x for x in raw.requests if x.short_name == "rq_dtc"][0]
+    for code in (DTC_A, DTC_B, DTC_C):
+        for st in (0, 0xFF):
+            n += 1
+            want = bytes([0x19]) + code.to_bytes(3, "big") + bytes([st])
+            r, e, _ = cc.guarded(lambda: bytes(rq.encode(dtc=code, st=st)), timeout=3)
+            d, e2, _ = cc.guarded(lambda: _norm_dtc(rq.decode(want)), timeout=3)
+            ck.count(("dtc", code, st))
+            if e is not None or r != want or e2 is not None or d != {"sid": 0x19, "dtc": code, "st": st}:
+                ck.violation(f"rq_dtc(dtc={code:#x}, st={st}): encoded {r.hex() if e is None else repr(e)} (layout: {want.hex()}), "
+                             f"decoded {d!r} {e2!r}", {"document": "harness/codec_checks.py UNMODELLED_DOC2", "request": "rq_dtc", "dtc": code, "st": st})
+                return
+    rq = [x for x in raw.requests if x.short_name == "rq_tab"][0]
+    for row, key, val, wire in (("r1", 1, {"k": 5, "d": 0x1234}, "051234"), ("r1", 1, {"k": 0, "d": 0}, "000000"),
+                                ("r2", 7, 0xBEEF, "beef"), ("r3", 200, 0x7F, "7f")):
+        n += 1
+        want = bytes([0x31, key]) + bytes.fromhex(wire)
+        ck.count(("table", row, repr(val)))
+        rep_ = {"document": "harness/codec_checks.py UNMODELLED_DOC2", "request": "rq_tab", "row": row, "value": repr(val)}
+        r, e, _ = cc.guarded(lambda: bytes(rq.encode(data=(row, val))), timeout=3)
+        if e is not None or r != want:
+            ck.violation(f"rq_tab with data=({row!r}, {val!r}) is encoded as {r.hex() if e is None else repr(e)}, "
+                         f"the ODX layout prescribes {want.hex()}", rep_)
+            return
+        d, e2, _ = cc.guarded(lambda: rq.decode(r), timeout=3)
+        if e2 is not None or d.get("key") != row or tuple(d.get("data", ())) != (row, val):
+            ck.violation(f"rq_tab: decode(encode(data=({row!r}, {val!r}))) = {d!r} {e2!r}", rep_)
+            return
+    ck.coverage["dtc_envdata_table_messages"] = n
 
 
 def somersault_decode(ck):
